@@ -204,7 +204,7 @@ def run(ck):
             ck.report(key, "no error of an ill-typed sub-pattern has its primary location on that sub-pattern (best: %s)" % where,
                       dict(fault=c["kind"], position=c["position"], invocation="assert_struct!(v, %s)" % c["pattern"], value_type=c["type"], faulty_subpattern=c["inner"],
                            expected_columns=[c["col0"], c["col1"]], errors=[dict(code=d["code"], message=d["message"], primary=[(s["ls"], s["cs"], s["le"], s["ce"]) for s in d["spans"] if s["primary"]]) for d in r["diags"]][:4]))
-    ck.corr_record("T3 single type faults (25 leaf faults, operands of one and of several tokens, + 9 field-path faults, each injected at the 17 positions; rustc JSON diagnostics: some error's primary span must lie on the faulty sub-pattern)",
+    ck.corr_record("T3 single type faults (%d leaf and shape faults, operands of one and of several tokens, + %d field-path / field-name faults (unknown named, tuple-index and wildcard-struct fields included), each injected at the %d positions; rustc JSON diagnostics: some error's primary span must lie on the faulty sub-pattern)" % (len(FAULTS), len(STRUCT_FAULTS), len(P.POSITIONS)),
                    len(cases), len(cases), 0, dist,
                    samples=[dict(fault=c["kind"], position=c["position"], invocation="assert_struct!(v, %s)" % c["pattern"]) for c in cases[:3]],
                    exhaustive=True, rule="the full fault x position matrix; every program distinct")
